@@ -6,14 +6,14 @@ seeded scheduler; fault kinds: one client cancelled mid-flight, resolvers of dif
 raising one shared exception instance.  Each response must equal the response of the same request
 run alone on a twin engine; afterwards every request is replayed on the used engine and must
 still equal its solo response."""
-from simv.actors import canon, forget
+from simv.actors import MARK_SDL, canon, forget, register_mark
 from simv.checks.common import COMMON_ASSUMPTIONS, base_result, pick_engine_cfg, trace_tail
 from simv.gen.document import gen_document, gen_variables
 from simv.gen.schema import gen_schema
 from simv.harness import Req, corrupt_text, cook_engine, pick_scheduler, run_batch, run_digest, run_solo
 from simv.model.document import print_document
 from simv.model.exec import RefExec, enumerate_fault_sites
-from simv.model.schema import print_sdl
+from simv.model.schema import ABSENT, DirUse, print_sdl
 from simv.oracle import V, check_calls, check_envelope, first_diff, same
 from simv.simloop import SimDeadlock, SimStepCap
 from simv.tape import Tape
@@ -86,6 +86,15 @@ def build_requests(tape, schema, tier, shared_pct=40, max_req=None):
     docs = []
     for i in range(ndocs):
         doc = gen_document(schema, tape, {"max_depth": 3, "max_sel": 4, "max_frags": 2, "max_ops": 2}, stream="doc%d" % i)
+        # a query-side custom directive whose argument comes from a variable: the same text with
+        # other variable values must behave differently (odd k fails the field)
+        if t.chance(50):
+            for op in doc.operations():
+                fields = [x for x in op.sels if x.kind == "field" and x.name != "__typename"]
+                if fields and op.op != "subscription":
+                    f = fields[t.draw(len(fields))]
+                    f.directives = list(f.directives) + [DirUse("mark", [("k", ("var", "mk"))])]
+                    op.vardefs = list(op.vardefs) + [("mk", ("NN", ("N", "Int")), ABSENT)]
         text = print_document(doc, tape.draw("doc%d" % i, 3))
         docs.append((doc, text))
     nreq = t.rint(2, max_req or (5 if tier == "quick" else 8))
@@ -97,6 +106,8 @@ def build_requests(tape, schema, tier, shared_pct=40, max_req=None):
         op = ops[t.draw(len(ops))]
         op_name = op.name if (len(ops) > 1 or (op.name and t.chance(50))) else None
         variables = gen_variables(schema, tape, op, stream="vars%d" % rid)
+        if any(v[0] == "mk" for v in op.vardefs):
+            variables["mk"] = t.draw(6)
         label = "doc%d" % di
         plan = None
         if t.chance(18):
@@ -132,7 +143,7 @@ def run_one(seed, preset=None, tier="quick", want_case=False):
     tape = Tape(seed, preset)
     cfgt = tape.sub("cfg")
     schema = gen_schema(tape, {"max_objects": 4, "default_impl_pct": 15})
-    sdl = print_sdl(schema)
+    sdl = print_sdl(schema) + MARK_SDL
     reqs = build_requests(tape, schema, tier)
     cfg = pick_engine_cfg(cfgt)
     cache = cfgt.choose(["default", "default", "none", "lru1"])
@@ -147,8 +158,8 @@ def run_one(seed, preset=None, tier="quick", want_case=False):
     name, twin = "%s_%d" % (ID, seed), "%s_%d_twin" % (ID, seed)
     viol = []
     try:
-        engine = cook_engine(schema, name, cfg, sdl=sdl, **extra)
-        twin_engine = cook_engine(schema, twin, cfg, sdl=sdl, query_cache_decorator=None)
+        engine = cook_engine(schema, name, cfg, sdl=sdl, pre=register_mark, **extra)
+        twin_engine = cook_engine(schema, twin, cfg, sdl=sdl, pre=register_mark, query_cache_decorator=None)
         shared = {}
         out = run_batch(engine, reqs, tape.sub("sched"), sch[0], sch[1], sch[2], cancel, True, shared)
         if out.exc is not None:
